@@ -108,6 +108,13 @@ func runPath(ld *Loaded, cfg *HarnessCfg, fn *ssa.Function, s, s2 *Solver, prefi
 	}
 	m.pushFrame(g, fn, nil, nil, nil, nil)
 	m.runLoop()
+	// a solved witness of the whole path (every input declared along it)
+	if wantSample && m.endReason == "returned" && len(m.reached) > 0 && len(m.violations) == 0 {
+		if s.checkSat() == "sat" {
+			m.sample = m.model()
+			m.sample["@path"] = "returned"
+		}
+	}
 	return m, ""
 }
 
